@@ -675,6 +675,11 @@ def finish(dec, prop, obs, case_type, checks, rule, key, kind):
             dec.report(dict(obs[i][1], kind='model-differs', theorem='correspondence'), no_input=True)
     for name, out in broken:
         dec.report(dict(kind='case-file-broken', file=name, detail=out), no_input=True)
+    if prop == 'C16':
+        # one provider answers several queries at the same time (one thread per association): the identifier a thread
+        # sends is the encoding of ITS match
+        import race
+        dec.concurrent_use([race.dataset_ops, race.message_ops])
     run.keep = bool(dec.violations)
     run.cleanup()
     return dec.finish()
